@@ -31,6 +31,7 @@ type Engine struct {
 	externs   map[string]externFn
 	logKeys   map[string]bool
 	callSigs  map[string]*callSig
+	callRets  map[string][]types.Type
 	funcs     map[string]*ssa.Function
 	funcIDs   map[string]int
 	typeIDs   map[string]int
@@ -40,7 +41,7 @@ type Engine struct {
 
 func NewEngine(repoDir string) *Engine {
 	eng := &Engine{repoDir: repoDir, contracts: map[string]*Contract{}, pures: map[string]*PureDef{}, ghosts: map[string]*GhostDef{},
-		logKeys: map[string]bool{}, callSigs: map[string]*callSig{}, funcs: map[string]*ssa.Function{}, funcIDs: map[string]int{},
+		logKeys: map[string]bool{}, callSigs: map[string]*callSig{}, callRets: map[string][]types.Type{}, funcs: map[string]*ssa.Function{}, funcIDs: map[string]int{},
 		typeIDs: map[string]int{}, strLits: map[string]int{}, allPkgs: map[string]*packages.Package{}, ssaPkgs: map[string]*ssa.Package{}}
 	eng.initExterns()
 	return eng
@@ -176,6 +177,13 @@ func (eng *Engine) indexCallSigs() {
 		seen[f] = true
 		for _, b := range f.Blocks {
 			for _, in := range b.Instrs {
+				if mc, ok := in.(*ssa.MakeClosure); ok {
+					if cf, ok := mc.Fn.(*ssa.Function); ok {
+						if _, have := eng.funcs[funcKey(cf)]; !have {
+							eng.funcs[funcKey(cf)] = cf
+						}
+					}
+				}
 				var cc *ssa.CallCommon
 				prefix := ""
 				switch v := in.(type) {
@@ -237,6 +245,12 @@ func (eng *Engine) indexCallSigs() {
 					}
 				}
 				eng.callSigs[key] = sig
+				var rts []types.Type
+				rs := cc.Signature().Results()
+				for i := 0; i < rs.Len(); i++ {
+					rts = append(rts, rs.At(i).Type())
+				}
+				eng.callRets[key] = rts
 			}
 		}
 		for _, a := range f.AnonFuncs {
@@ -285,22 +299,8 @@ func (eng *Engine) funcByKey(key string) *ssa.Function {
 	if f, ok := eng.funcs[key]; ok {
 		return f
 	}
-	// synthetic bound-method wrappers are created on demand by go/ssa; search the program
-	if strings.HasSuffix(key, "$bound") {
-		base := strings.TrimSuffix(key, "$bound")
-		if f, ok := eng.funcs[base]; ok {
-			if obj, ok := f.Object().(*types.Func); ok {
-				sel := eng.boundSelection(obj)
-				if sel != nil {
-					return eng.prog.NewFunction(f.Name()+"$bound", f.Signature, "bound")
-				}
-			}
-		}
-	}
 	return nil
 }
-
-func (eng *Engine) boundSelection(obj *types.Func) *types.Selection { return nil }
 
 func (eng *Engine) funcID(fn *ssa.Function) Term {
 	k := funcKey(fn)
@@ -464,7 +464,10 @@ func (eng *Engine) VerifyFunc(fn *ssa.Function, c *Contract) (res *FuncResult) {
 	// preconditions
 	e := x.envFor(st, fr, c)
 	for _, cl := range c.ByKind("requires") {
-		st.assume(x.safeBool(e, cl))
+		st.assume(x.safeAssume(e, cl))
+	}
+	for _, cl := range c.ByKind("domain") {
+		st.assume(x.safeAssume(e, cl))
 	}
 	x.entryHeap = st.snapshot()
 	x.entryWM = st.wmNow()
@@ -482,8 +485,14 @@ func (eng *Engine) VerifyFunc(fn *ssa.Function, c *Contract) (res *FuncResult) {
 		res.Returns++
 		rt := fn.Signature.Results()
 		tvs := resultTVs(rv, rt)
+		// hints: proved at the return point, then available to the ensures
+		for _, cl := range c.ByKind("hint") {
+			g := x.evalClauseBool(st2, fr2, cl, tvs, 1)
+			x.oblige(st2, clauseName(cl), cl.Props, g, cl.Src)
+			st2.assume(x.evalClauseBool(st2, fr2, cl, tvs, -1))
+		}
 		for _, cl := range c.ByKind("ensures") {
-			g := x.evalClauseBool(st2, fr2, cl, tvs)
+			g := x.evalClauseBool(st2, fr2, cl, tvs, 1)
 			x.oblige(st2, clauseName(cl), cl.Props, g, cl.Src)
 		}
 		for _, cl := range c.ByKind("panics") {
